@@ -141,7 +141,18 @@ func (r *runner) step(o op) (applied bool) {
 			return false
 		}
 		Z := &sobj{id: o.New, parent: X.id, gen: X.gen + 1, alive: true, snapIDs: map[int]int{}, parentMutAtCopy: X.mutated}
-		Z.st = X.st.Copy()
+		// Copy() can crash (seen: an address left in stateObjectsDirty without an object after a reverted
+		// touch of the RIPEMD address followed by Commit without Finalise). The property does not promise
+		// "no crash", so this is counted as a diagnostic, and the program goes on without that copy.
+		var cp interface{}
+		func() {
+			defer func() { cp = recover() }()
+			Z.st = X.st.Copy()
+		}()
+		if cp != nil || Z.st == nil {
+			r.cnt["diag_copy_panics"]++
+			return false
+		}
 		r.objs[Z.id] = Z
 		r.order = append(r.order, Z.id)
 		r.log = append(r.log, o)
